@@ -146,6 +146,15 @@ func c11Result(comps gedcom.IndividualComparisons) []string {
 	return out
 }
 
+func c11SeveralIDs(l gedcom.IndividualNodes) bool {
+	for _, a := range l {
+		if a.UniqueIdentifiers().Len() > 1 {
+			return true
+		}
+	}
+	return false
+}
+
 func c11Run(c *fw.Ctx, i int) {
 	r := c.R
 	scen := c11Scenarios[i%len(c11Scenarios)]
@@ -175,9 +184,31 @@ func c11Run(c *fw.Ctx, i int) {
 			}
 		}
 		if scen == "duplicated-unique-ids" && len(base.People) >= 3 {
-			base.People[1].UIDs = base.People[0].UIDs
-			if len(right.People) >= 3 && r.Bool() {
-				right.People[2].UIDs = right.People[0].UIDs
+			switch r.Intn(3) {
+			case 0, 1:
+				base.People[1].UIDs = base.People[0].UIDs
+				if len(right.People) >= 3 && r.Bool() {
+					right.People[2].UIDs = right.People[0].UIDs
+				}
+			}
+			// a merged record that kept the identifiers of both of its
+			// sources, which are still two records on the other side
+			if len(right.People) >= 3 && r.Chance(2, 3) {
+				one, other := base, right
+				if r.Bool() {
+					one, other = right, base
+				}
+				if len(one.People) >= 1 && len(other.People) >= 3 {
+					u1, u2 := "AAAA1111BBBB2222CCCC3333DDDD4444", "EEEE5555FFFF6666AAAA7777BBBB8888"
+					a := r.Intn(len(one.People))
+					b := r.Intn(len(other.People))
+					d := (b + 1 + r.Intn(len(other.People)-1)) % len(other.People)
+					one.People[a].UIDs = []string{u1, u2}
+					if r.Bool() {
+						one.People[a].UIDs = []string{u2, u1}
+					}
+					other.People[b].UIDs, other.People[d].UIDs = []string{u1}, []string{u2}
+				}
 			}
 		}
 	case "identical-twins":
@@ -324,6 +355,10 @@ func c11Run(c *fw.Ctx, i int) {
 			if v > 1 {
 				ties = true
 			}
+		}
+		// somebody with several identifiers can be claimed through any of them
+		if c11SeveralIDs(tl) || c11SeveralIDs(tr) {
+			ties = true
 		}
 		// a tie matters when two candidate pairs with the same score compete for an individual
 		for ai, a := range tl {
@@ -618,6 +653,9 @@ func c11CLIOptions(c *fw.Ctx, i int, bin string) {
 				scores[fmt.Sprintf("R%s:%.9f", b.Pointer(), ws)]++
 			}
 		}
+	}
+	if c11SeveralIDs(ld.Individuals()) || c11SeveralIDs(rd.Individuals()) {
+		scores["several-ids"] = 2
 	}
 	for _, n := range scores {
 		if n > 1 {
